@@ -19,7 +19,7 @@ Reset == /\ Ev("reset")
   /\ q' = [s \in Streams |-> <<>>] /\ sw' = [s \in Streams |-> 0] /\ bufs' = {}
   /\ cw' = C0 /\ iw' = W0 /\ mf' = MF0 /\ out' = <<>> /\ cont' = NoCont /\ ctl' = <<>>
   /\ gS' = [s \in Streams |-> W0] /\ gC' = C0 /\ bad' = FALSE /\ badMF' = FALSE
-  /\ aFC' = [s \in Streams |-> 0] /\ aFCc' = 0 /\ aCred' = [s \in Streams |-> 0] /\ aCredC' = 0
+  /\ aFC' = [s \in Streams |-> 0] /\ aFCc' = 0 /\ aCred' = [s \in Streams |-> 0] /\ aCredC' = 0 /\ aInit' = W0
   /\ sentLog' = [s \in Streams |-> <<>>] /\ dlvLog' = [s \in Streams |-> <<>>]
   /\ nSend' = 0 /\ nCtl' = 0 /\ hcount' = 0 /\ encOrder' = <<>> /\ dlvOrder' = <<>>
   /\ pings' = {} /\ goneAway' = "no" /\ aClosed' = FALSE /\ sets' = [a2b |-> 0, b2a |-> 0, ackA |-> 0, ackB |-> 0]
@@ -56,7 +56,9 @@ LogRecv == /\ Ev("b_recv") /\ out # <<>>
 LogConn == /\ \/ (Ev("b_ping") /\ BRecvPing(T.n))
               \/ (Ev("b_goaway") /\ BRecvGoAway)
               \* SETTINGS frames and acknowledgements seen by the endpoints
-              \/ (Ev("a_settings") /\ ARecvSettings) \/ (Ev("b_settings") /\ BRecvSettings)
+              \* (iw: the SETTINGS_INITIAL_WINDOW_SIZE the frame carries, -1 for none - a conforming A uses it from then on)
+              \/ (Ev("a_settings") /\ ARecvSettings /\ (T.iw = -1 \/ (ForwardInitWin /\ T.iw = aInit)))
+              \/ (Ev("b_settings") /\ BRecvSettings)
               \/ (Ev("a_ack") /\ ARecvAck) \/ (Ev("b_ack") /\ BRecvAck)
            /\ UNCHANGED <<pendA, seenCred, seenCredC>>
 \* --- logged: A receives WINDOW_UPDATE from the relay; never more than the relay owes
